@@ -195,3 +195,29 @@ pub fn has_storage_layer(layer: &str) -> String {
     };
     format!("underlying=true answer={ans}")
 }
+
+// ---------------------------------------------------------------- opcode / precompile availability per fork
+use revm::interpreter::{opcode::make_instruction_table, Contract, DummyHost, Interpreter};
+use revm::primitives::{spec_to_generic, Env};
+
+/// Executes opcode `op` of the instruction table of fork `spec` on an empty-stack, zero-gas legacy interpreter.
+pub fn opcode_status(op: u8, spec: u8) -> String {
+    let spec_id = SpecId::try_from_u8(spec).expect("spec id");
+    fn run<SPEC: revm::primitives::Spec>(op: u8) -> String {
+        let table = make_instruction_table::<DummyHost, SPEC>();
+        let mut host = DummyHost::new(Env::default());
+        let mut it = Interpreter::new(Contract::default(), 0, false);
+        // enough (zero) operands that no opcode underflows before it reaches its fork gate; zero gas stops it right after
+        for _ in 0..8 {
+            it.stack.push(U256::ZERO).unwrap();
+        }
+        (table[op as usize])(&mut it, &mut host);
+        format!("{:?}", it.instruction_result)
+    }
+    spec_to_generic!(spec_id, run::<SPEC>(op))
+}
+
+pub fn precompile_spec(spec: u8) -> String {
+    let spec_id = SpecId::try_from_u8(spec).expect("spec id");
+    format!("{:?}", revm::precompile::PrecompileSpecId::from_spec_id(spec_id))
+}
